@@ -38,6 +38,11 @@ def run(ctx: Ctx):
     from .. import memo as _memo
 
     ctx.section(_memo.check_memo_keys, ctx, ('algorithms.', 'qcircuit.', 'qlassfun.QlassF.compile', 'qlassfun.QlassF.circuit', 'qlassfun.QlassF.to_logicfun'))
+    # the amplification argument needs an oracle that returns its scratch qubits to zero (interference): the final
+    # reverse replay of the compiler is part of what Grover relies on
+    from . import c03 as _c03
+
+    ctx.section(_c03.check_uncompute_all, ctx)
     an = fx.effects(ctx)
     ci = ctx.repo.cls(G)
     init = ci.methods.get("__init__")
